@@ -556,6 +556,9 @@ def run(ctx):
     # ------------------------------------------------------------------ R1.11 (sibling rule) every descriptor frame is registered
     ctx.import_rule("C03", "R3.5", "R1.11", "a record is decoded only if its descriptor frame was registered: readers register every descriptor frame unconditionally")
 
+    # ------------------------------------------------------------------ R1.12 (sibling rule) what the packer writes for a digest follows the visible value
+    ctx.import_rule("C05", "R5.12", "R1.12", "digest._pack writes the binary attributes: a setter keeps them in step with the hex text on every normal path")
+
 
 
 def _always_leaves(stmts) -> bool:
